@@ -38,6 +38,7 @@ type ConcCase struct {
 	Procs    []ConcProc `json:"procs"`
 	Schedule []string   `json:"schedule"`
 	Gates    []string   `json:"gates"`
+	FromBase bool       `json:"frombase"` // feeds begin at this case's start marker (backfill "zero" starts there, a checkpoint names it)
 	Frozen   bool       `json:"frozen"` // the physical clock stands still: every CAS is its predecessor + 1
 }
 
@@ -78,6 +79,8 @@ type concRunner struct {
 	tr          *Trace
 	x           *Ctx
 	suffix      string
+	startCas    map[string]uint64
+	fromBase    bool
 	lines       []*SeqStep
 	feeds       []*liveFeed
 	byID        map[string]*liveFeed
@@ -144,6 +147,10 @@ func (cr *concRunner) startFeed(id string, coll string, fs FeedSpec) error {
 		args.Backfill = sgbucket.FeedNoBackfill
 	case "zero":
 		args.Backfill = 0
+		if cr.fromBase {
+			// the collection holds the documents of earlier cases: start right after this case's start marker
+			args.Backfill = cr.startCas[coll] + 1
+		}
 	case "resume":
 		args.Backfill = sgbucket.FeedResume
 	}
@@ -201,6 +208,8 @@ func runConcCase(env *seqEnv, trNo int, cc *ConcCase) (*Trace, error) {
 	}
 	cr := &concRunner{env: env, ctl: ctl, tr: tr, x: x, suffix: suffix, byID: map[string]*liveFeed{}, pendingStop: map[string]*liveFeed{}}
 	startCas := map[string]uint64{}
+	cr.startCas = startCas
+	cr.fromBase = cc.FromBase
 	startRefs := map[string]*CasRef{}
 	for _, c := range collNames {
 		cas, err := env.colls[c].WriteCas("~start"+strings.Replace(suffix, ".", "_", 1), 0, 0, []byte(`{"start":1}`), 0)
@@ -260,6 +269,30 @@ func runConcCase(env *seqEnv, trNo int, cc *ConcCase) (*Trace, error) {
 	x.snap = map[string]uint64{}
 	for k, ki := range info {
 		x.snap[k] = ki.cur
+	}
+	if cc.FromBase {
+		// ... and a feed that resumes finds a checkpoint that names the start marker (written by the driver itself,
+		// with a CAS of its own choosing, so that it is no step of the schedule and not part of any backfill)
+		for _, p := range cc.Procs {
+			for _, op := range p.Ops {
+				if op.Op == "StartFeed" && op.F != nil && op.F.Backfill == "resume" && op.F.Ckpt != "" {
+					c := env.colls[op.Coll]
+					key := op.F.Ckpt + ":" + op.Key
+					_, cur, _ := c.GetRaw(key)
+					// the checkpoint names the CAS just below the first document this case has written
+					base := maxCas
+					for k, v := range x.snap {
+						if strings.HasPrefix(k, op.Coll+"/") && v != 0 && v-1 < base {
+							base = v - 1
+						}
+					}
+					body := []byte(fmt.Sprintf(`{"last_seq":%d}`, base))
+					if err := c.SetWithMeta(context.Background(), key, cur, uint64(1000+trNo), 0, nil, body, sgbucket.FeedDataTypeJSON); err != nil {
+						return nil, fmt.Errorf("checkpoint preset: %w", err)
+					}
+				}
+			}
+		}
 	}
 	ctl.Install()
 	defer ctl.Remove()
